@@ -851,6 +851,13 @@ class Tilt(TiltInterface):
         self.x = y  # y tilt is about the x-axis.
         self.y = x  # x tilt is about the y-axis.
 
+    def _snapshot(self):
+        # (angles held in arrays - e.g. a 0-d view of a command vector - are
+        # copied: the owner may write into them)
+        tilt = copy.copy(self)
+        tilt.x, tilt.y = copy.copy(self.x), copy.copy(self.y)
+        return tilt
+
     def shift(self, xs=0, ys=0, z=0, **kwargs):
         """Compute image plane shift due to this angular tilt
 
